@@ -200,7 +200,12 @@ def _str_to_set(
     if isinstance(value, str):
         return {value}
     if hasattr(value, "__iter__"):
-        return set(value)
+        try:
+            return set(value)
+        except TypeError:
+            # Unhashable items, e.g. a nested list. Let the validator complain
+            # about the unconverted value.
+            return cast(set[_T], value)
     return {value}
 
 
